@@ -31,6 +31,8 @@ import GluonModel.Proofs.GcHeapTotal
 import GluonModel.Proofs.GcMachine
 import GluonModel.Proofs.GcIdem
 import GluonModel.Proofs.GcPromote
+import GluonModel.GcHandles
+import GluonModel.Proofs.GcHandles
 
 namespace GluonModel.Props.C05
 open GluonModel.GcHeap
@@ -160,6 +162,79 @@ theorem stale_mark_bit_breaks_safety_fails :
     freedByM staleDemo [0] [1] = some [2] ∧ freedByM staleDemo [0] [] = some [] ∧
     freedBy staleDemo [0] = some [] := by
   decide
+
+/-! ### Host-held value handles (wave 2)
+
+A `RootedValue` the host holds is one entry of `rooted_values` of its thread; `clone` adds an entry
+for the same object, `drop` removes ONE entry of that OBJECT (identity, `Value::obj_eq`) and
+nothing else. The host roots of a thread are therefore a multiset keyed by object identity —
+never by what the value looks like: two distinct objects with equal contents are different keys. -/
+
+/-- Creating / cloning a handle adds exactly one occurrence of exactly that object to the root list
+    of the handle's thread. -/
+theorem host_root_adds_exactly_one {fixed : Bool} {s : State} {t : HeapId} {r i : Nat}
+    (hh : holds s t r = true) (hi : isThreadOf s i t) (x : Nat) :
+    rootCount (step fixed s (.root t r)) i x = rootCount s i x + (if x = r then 1 else 0) :=
+  root_count hh hi x
+
+/-- Dropping a handle removes exactly one occurrence of exactly that object — the count of every
+    OTHER object in the thread's root list is unchanged (whatever its contents), and further
+    handles to the same object keep it rooted. -/
+theorem host_unroot_removes_exactly_one {fixed : Bool} {s : State} {t : HeapId} {r i : Nat}
+    (hr : isThreadObj s r = false) (hi : isThreadOf s i t) (x : Nat) :
+    rootCount (step fixed s (.unroot t r)) i x = rootCount s i x - (if x = r then 1 else 0) :=
+  unroot_count hr hi x
+
+/-- Neither operation touches any other object: not the heap, not another thread's root list. -/
+theorem host_root_ops_touch_nothing_else {fixed : Bool} {s : State} {t : HeapId} {r i : Nat}
+    (hi : ¬ isThreadOf s i t) :
+    (step fixed s (.root t r)).obj i = s.obj i ∧ (step fixed s (.unroot t r)).obj i = s.obj i :=
+  ⟨root_other hi, unroot_other hi⟩
+
+/-- "A value handle held by the host keeps its value alive": in every reachable state, an object
+    with at least one entry in some thread's root list — and everything below it — is unchanged by
+    a collection of ANY thread. -/
+theorem held_handle_keeps_its_value (fixed : Bool) (ops : List Op)
+    (h : ∀ op ∈ ops, op.isPromote = false) (t : HeapId) (ht : t ≠ []) {i r : Nat}
+    (hroot : 0 < rootCount (run fixed init ops) i r)
+    (hthr : ∃ o, (run fixed init ops).obj i = some o ∧ o.kind = .thread) :
+    ∃ s', collect (run fixed init ops) t = some s' ∧
+      ∀ p op, Reach (run fixed init ops) (fun x => x = r) p →
+        (run fixed init ops).obj p = some op → s'.obj p = some op := by
+  let g := run_good ops init (init_good fixed) h
+  obtain ⟨s', hs'⟩ := collect_total' _ t g.wf
+  obtain ⟨o, ho, hk⟩ := hthr
+  have hmem : r ∈ o.edges := by
+    have : 0 < o.edges.count r := by simpa [rootCount, ho] using hroot
+    exact List.count_pos_iff.mp this
+  exact ⟨s', hs', fun p op hp hop =>
+    held_value_survives g.wf g.inv g.homed g.grootsGlobal ht (Or.inl ⟨i, o, ho, hk, hmem⟩) hs' hp hop⟩
+
+/-- "… exactly its value": an object of a swept heap that no root reaches any more (its last
+    handle was dropped and nothing else points to it) is reclaimed by the collection. -/
+theorem unheld_value_is_reclaimed {s s' : State} {t : HeapId} (hc : collect s t = some s')
+    {p : Nat} {op : Obj} (hop : s.obj p = some op) (hin : t <+: op.owner)
+    (hun : ¬ Reach s (AllRoots s) p) : s'.obj p = none :=
+  collect_frees_unreachable hc hop hin hun
+
+/-- Handles are keyed by identity, not by looks (kernel-evaluated on the machine): two values of
+    the same shape built one after the other (objects 1 and 2, indistinguishable to the model but
+    for their identity) — dropping the FIRST handle frees exactly object 1, dropping the SECOND
+    exactly object 2; three handles to one object keep it until the last one is dropped, in any
+    drop order; a handle to a field keeps the field and not the record. -/
+theorem handles_keyed_by_identity :
+    aliveIn (hrun (hinit []) [.mk [0] 0, .mk [0] 0, .drop 0, .collect [0]]).s [0] = [2] ∧
+    aliveIn (hrun (hinit []) [.mk [0] 0, .mk [0] 0, .drop 1, .collect [0]]).s [0] = [1] ∧
+    hostRoots (hrun (hinit []) [.mk [0] 0, .mk [0] 0, .clone 0, .drop 0]).s [0] = [1, 2] ∧
+    aliveIn (hrun (hinit []) [.mk [0] 0, .clone 0, .clone 1, .drop 1, .drop 0, .collect [0]]).s [0] = [1] ∧
+    aliveIn (hrun (hinit []) [.mk [0] 0, .clone 0, .clone 1, .drop 1, .drop 0, .drop 2, .collect [0]]).s [0] = [] ∧
+    aliveIn (hrun (hinit []) [.mk [0] 2, .field 0 1, .drop 0, .collect [0]]).s [0] = [2] := by
+  decide
+
+example : isThreadOf (hrun (hinit []) [.mk [0] 0, .mk [0] 0]).s 0 [0] :=
+  ⟨⟨[], [0], .thread, [2, 1]⟩, by decide, rfl, rfl⟩
+example : rootCount (hrun (hinit []) [.mk [0] 0, .clone 0, .clone 1]).s 0 1 = 3 := by decide
+example : rootCount (hrun (hinit []) [.mk [0] 0, .clone 0, .clone 1, .drop 1]).s 0 1 = 2 := by decide
 
 /-! ### Transparency: how often collections run does not matter -/
 
